@@ -145,6 +145,8 @@ Definition run_op (op : cop) (M : cmesh) (dims : list string) (nv : nat)
 
 End Calculus.
 
+Arguments cm_sh {K}. Arguments cm_cell {K}. Arguments cm_per {K}. Arguments cm_nd {K}.
+
 (* which axis each component of the RESULT must be mapped to (None = the property does not say):
    grad and curl results are in dims order; the vector Laplacian keeps the field's own mapping *)
 Definition expected_axes (op : cop) (nd nv : nat) (vdims : option (list string)) (vmap : sdict)
